@@ -283,6 +283,9 @@ package coordinator
 //@   ensures no_owners_no_success: len(shard.Owners) == 0 ==> result != nil
 //@   ensures partial: got == len(shard.Owners) && okc > 0 && okc < req(consistency, len(shard.Owners)) ==> result == ErrPartialWrite
 //@   ensures failed: got == len(shard.Owners) && okc == 0 ==> result != nil && result != ErrPartialWrite
+//@   ghost gave_up bool = false
+//@   at after select#1: ghost gave_up = gave_up || selectidx != 2
+//@   ensures a_failure_is_reported_only_when_the_level_is_out_of_reach: result != nil && !gave_up && len(shard.Owners) > 0 ==> len(shard.Owners) - (got - okc) < req(consistency, len(shard.Owners))
 
 // Environment of the points writer (fields of unnamed interface type): any result, no write to the
 // points writer's own state or to the request (assumption).
